@@ -159,6 +159,31 @@ Proof. exact dsl_allowed_complete. Qed.
 Print Assumptions C18_dsl_allowed_complete.
 
 
+(* ---- band filters: only-values / only-bytes (builtin_fn_io.go) ---- *)
+
+(* FULL STATEMENT (the property's "a stage that exits without reading all its
+   input never makes earlier stages hang", for pipelines without single-band
+   reads) — false of the faithful model, see C18_early_exit_never_hangs_refuted:
+     forall p capB s, no_recv1 p = true -> 1 <= capB -> preachable p capB s ->
+       ~ pdone p s -> can_move lstate want cont (length p) (caps capB) s.
+   It holds when no band filter joins its helper goroutine after a failed write
+   ([plain]: no IRecv1, no IOnly true; IOnly false is the repaired builtin): *)
+Theorem C18_early_exit_never_hangs_partial : forall p capB s,
+  plain p = true -> 1 <= capB -> preachable p capB s -> ~ pdone p s ->
+  can_move lstate want cont (length p) (caps capB) s.
+Proof. exact early_exit_never_hangs_partial. Qed.
+Print Assumptions C18_early_exit_never_hangs_partial.
+
+(* `range 1000 | only-values | nop` at HEAD: nop exits, only-values is told
+   "reader gone" and then waits for the end of the byte band, range stays blocked
+   on the full value channel: a reachable state that is not final and cannot move. *)
+Theorem C18_early_exit_never_hangs_refuted :
+  exists p capB s, 1 <= capB /\ no_recv1 p = true /\ preachable p capB s /\ ~ pdone p s /\
+                   ~ can_move lstate want cont (length p) (caps capB) s.
+Proof. exact early_exit_never_hangs_refuted. Qed.
+Print Assumptions C18_early_exit_never_hangs_refuted.
+
+
 (* Read-to-end pipelines are deterministic.  When every stage has the shape
    `sends ; each {forward what the filter keeps} ; sends` (det_pipeline), two
    finished runs — whatever the schedules, whatever the byte-pipe capacities —
